@@ -301,7 +301,7 @@ func runCase(t lib.TB, test string, c kase) *runner {
 	defer s.close()
 	m := model{}
 	top := int64(-1)
-	var hashes [][]byte // hash of every live version
+	var hashes [][]byte   // hash of every live version
 	var before [][]string // read table observed just before version i was added
 	seq := 0
 	last := r.readTable(s.mv, m, top, "empty store")
